@@ -67,6 +67,18 @@ def _set(owner, name, new):
     setattr(owner, name, new)
 
 
+def _optional(fn):
+    """A contract attaches to an internal function; if a refactoring removed or renamed that function the contract is
+    simply unavailable (recorded in the evaluation counters) - it must never turn into an alarm or a crash."""
+    @functools.wraps(fn)
+    def wrapper():
+        try:
+            fn()
+        except (KeyError, AttributeError, ImportError):
+            EVALS[fn.__name__ + '.unavailable'] += 1
+    return wrapper
+
+
 def uninstall_all():
     for (owner, name), old in _installed.items():
         setattr(owner, name, old)
@@ -74,6 +86,7 @@ def uninstall_all():
 
 
 # ---------------------------------------------------------------------------
+@_optional
 def parse_rule_returns_check():
     """C02: whatever is loaded, parse_rule yields something enforcement can call."""
     from oslo_policy import _checks, _parser
@@ -83,6 +96,7 @@ def parse_rule_returns_check():
     _set(_parser, 'parse_rule', _post(_parser.parse_rule, 'parse_rule.returns_check', result_is_check))
 
 
+@_optional
 def parse_state_stacks_parallel():
     """C01: the two shift-reduce stacks stay parallel after every shift."""
     from oslo_policy import _parser
@@ -93,6 +107,7 @@ def parse_state_stacks_parallel():
          _post(_parser.ParseState.__dict__['shift'], 'ParseState.stacks_parallel', stacks_parallel))
 
 
+@_optional
 def enforce_do_raise_truthy():
     """C07: with do_raise on, enforce never *returns* a falsy value."""
     from oslo_policy import policy
@@ -103,6 +118,7 @@ def enforce_do_raise_truthy():
          _post(policy.Enforcer.__dict__['enforce'], 'enforce.do_raise_truthy', truthy_under_do_raise))
 
 
+@_optional
 def missing_never_none():
     """C03: the missing-key hook either raises KeyError or returns a check."""
     from oslo_policy import policy
@@ -113,6 +129,7 @@ def missing_never_none():
          _post(policy.Rules.__dict__['__missing__'], 'Rules.__missing__.not_none', not_none))
 
 
+@_optional
 def load_rules_keeps_defaults():
     """C10/C12: after a load from configuration every registered default name
     is present in the rule store."""
